@@ -67,6 +67,8 @@ def run(ctx):
     if ok_go:
         # the name cache of a directory (M8e): replies, Lastoff, the cache map and the slots after every step of real transactions
         dclib.run(ctx, ok_drv, "C10")
+        # the allocation discipline (M8b): several real alloctxn transactions open at once; allocator and bitmap after every step
+        dclib.run_atxn(ctx, ok_drv)
     if ok_go:
         # resource exhaustion: every allocation path at the exact boundary of a full disk (harness reclaim)
         rl = fscklib.run_images(ctx, ok_drv, "reclaim", ["reclaim", "-seed", str(ctx.seed)] + (["-hists", "9", "-rounds", "3"] if ctx.tier == "thorough" else ["-hists", "3", "-rounds", "1"]), set(), False)
